@@ -604,7 +604,7 @@ _E2N = ['header-line-carries-the-two-counts', 'one-numbered-line-per-first-side-
 _HSH_BIND = {k: k for k in ('n1', 'n2', 'pref_lists_residents', 'res_ties', 'pref_lists_hospitals', 'hosp_ties', 'lower_quotas', 'upper_quotas')}
 LEMMAS['C09/written-file-is-readable-2'] = dict(
     vars={'n1': 'int', 'n2': 'int', 'pref_lists_residents': LL_, 'res_ties': LL_, 'pref_lists_hospitals': LL_, 'hosp_ties': LL_, 'lower_quotas': L_, 'upper_quotas': L_,
-          'R': 'text', 'instance_options': IO_}, theory=['listsets'], defs=_reader_defs(),
+          'R': 'text', 'instance_options': IO_}, theory=['listsets'], defs=_reader_defs(), cover_named_facts=True,
     hyps=[('requires', _HSH, _HSH_BIND), ('ensures', _HSH, dict(_HSH_BIND, result='R')),
           ('solver-flags-as-documented', 'NA() == 2 and TW() == (len(pref_lists_hospitals) != 0)'),
           ('T8-the-file-is-the-written-text', _file_is('2 + n1 + n2')),
@@ -634,7 +634,7 @@ _BASE3 = ['wf', 'solver-flags-as-documented', _T8] + [_R2 + x for x in _R3N[:4]]
 LEMMAS['C09/written-file-is-readable-3'] = dict(
     vars={'n1': 'int', 'n2': 'int', 'n3': 'int', 'pref_lists_students': LL_, 'st_ties': LL_, 'project_lecturers': L_, 'lower_quotas': L_, 'upper_quotas': L_,
           'pref_lists_lecturers': LL_, 'lec_ties': LL_, 'lec_lower_quotas': L_, 'lec_targets': L_, 'lec_upper_quotas': L_,
-          'R': 'text', 'instance_options': IO_}, theory=['listsets'], defs=_reader_defs(),
+          'R': 'text', 'instance_options': IO_}, theory=['listsets'], defs=_reader_defs(), cover_named_facts=True,
     hyps=[('requires', _SPA, _SPA_BIND), ('ensures', _SPA, dict(_SPA_BIND, result='R')),
           ('solver-flags-as-documented', 'NA() == 3 and TW() == (len(pref_lists_lecturers) != 0)'),
           ('T8-the-file-is-the-written-text', _file_is('2 + n1 + n2 + n3')),
@@ -655,3 +655,37 @@ LEMMAS['C09/written-file-is-readable-3'] = dict(
            ('requires', 'fileIO:_import_from_file', {'instance_options': 'instance_options'}, None, None,
             {'second-side-lists-rank-those-who-rank-them': _BASE3 + ['the-lecturer-field-of-a-project-line-is-its-lecturer', 'every-ranked-project-is-in-range-and-its-lecturer-ranks-back',
                                                                       'whoever-is-on-a-lecturer-list-is-listed-on-that-line']})])
+
+# ---- C09 "the solver's reading agrees with the file's content", lifted across the writer: the model the reader returns for the written text holds
+#      exactly the lists, tie groups, quotas and lecturers that were handed to the writer (reader postcondition + writer postcondition + T8).
+_RD = 'fileIO:_import_from_file'
+_RDE = ['counts-from-the-header', 'one-row-per-student', 'rows-in-list-order-with-the-written-numbers-and-dense-tie-ranks', 'project-quotas-and-lecturers-as-written',
+        'lecturer-quotas-as-written-or-embedded']
+def _rows_agree(lists, ties):
+    return ('len(M.pairs) == n1 and forall(i, 0, n1, len(M.pairs[i]) == len(%(L)s[i]) and forall(c, 0, len(%(L)s[i]), M.pairs[i][c].studentID == i + 1 and M.pairs[i][c].projectID == %(L)s[i][c])'
+            ' and implies(len(%(L)s[i]) > 0, M.pairs[i][0].rank_student == 1)'
+            ' and forall(c, 0, len(%(L)s[i]) - 1, M.pairs[i][c + 1].rank_student == M.pairs[i][c].rank_student + ite(%(T)s[i][c] != 0, 0, 1)))' % dict(L=lists, T=ties))
+LEMMAS['C09/read-back-is-what-was-generated-2'] = dict(
+    vars=dict(LEMMAS['C09/written-file-is-readable-2']['vars'], M=('obj', 'Model')), theory=['listsets'], defs=_reader_defs(),
+    hyps=[('requires', _HSH, _HSH_BIND), ('ensures', _HSH, dict(_HSH_BIND, result='R')),
+          ('solver-flags-as-documented', 'NA() == 2 and TW() == (len(pref_lists_hospitals) != 0)'),
+          ('T8-the-file-is-the-written-text', _file_is('2 + n1 + n2')),
+          ('ghost-tie-decisions-first-side', _ties_of('1', 'n1', 'pref_lists_residents', 'res_ties')),
+          ('ensures', _RD, {'instance_options': 'instance_options', 'result': 'M'}, None, _RDE)],
+    goals=[('counts', 'M.num_students == n1 and M.num_projects == n2 and M.num_lecturers == n2'),
+           ('rows-are-the-first-side-lists-with-their-tie-groups', _rows_agree('pref_lists_residents', 'res_ties')),
+           ('quotas-are-the-quotas-handed-over', 'len(M.proj_lower_quotas) == n2 and len(M.proj_upper_quotas) == n2 and forall(j, 0, n2, M.proj_lower_quotas[j] == lower_quotas[j] and M.proj_upper_quotas[j] == upper_quotas[j]'
+            ' and M.proj_lecturers[j] == j + 1 and M.lec_lower_quotas[j] == lower_quotas[j] and M.lec_targets[j] == upper_quotas[j] and M.lec_upper_quotas[j] == upper_quotas[j])')])
+LEMMAS['C09/read-back-is-what-was-generated-3'] = dict(
+    vars=dict(LEMMAS['C09/written-file-is-readable-3']['vars'], M=('obj', 'Model')), theory=['listsets'], defs=_reader_defs(),
+    hyps=[('requires', _SPA, _SPA_BIND), ('ensures', _SPA, dict(_SPA_BIND, result='R')),
+          ('solver-flags-as-documented', 'NA() == 3 and TW() == (len(pref_lists_lecturers) != 0)'),
+          ('T8-the-file-is-the-written-text', _file_is('2 + n1 + n2 + n3')),
+          ('ghost-tie-decisions-first-side', _ties_of('1', 'n1', 'pref_lists_students', 'st_ties')),
+          ('ensures', _RD, {'instance_options': 'instance_options', 'result': 'M'}, None, _RDE)],
+    goals=[('counts', 'M.num_students == n1 and M.num_projects == n2 and M.num_lecturers == n3'),
+           ('rows-are-the-student-lists-with-their-tie-groups', _rows_agree('pref_lists_students', 'st_ties')),
+           ('project-quotas-and-lecturers-are-those-handed-over', 'len(M.proj_lower_quotas) == n2 and len(M.proj_upper_quotas) == n2 and forall(j, 0, n2, M.proj_lower_quotas[j] == lower_quotas[j]'
+            ' and M.proj_upper_quotas[j] == upper_quotas[j] and M.proj_lecturers[j] == project_lecturers[j])'),
+           ('lecturer-quotas-and-targets-are-those-handed-over', 'len(M.lec_lower_quotas) == n3 and forall(k, 0, n3, M.lec_lower_quotas[k] == lec_lower_quotas[k] and M.lec_targets[k] == lec_targets[k]'
+            ' and M.lec_upper_quotas[k] == lec_upper_quotas[k])')])
